@@ -714,6 +714,17 @@ def case_text(t):
                 desc={'op': 'text', 'utf8': t.encode('utf-8').hex()})
 
 
+def case_ctor_bits(ident, cls, arg):
+    """BitString subclass constructor from a list of 0/1 or of bit names (model bits_ctor_ints / bits_ctor_names)"""
+    exp = canon_call(lambda: cls(list(arg)), lambda o: canon_value('bits', o))
+    tblx = ident if ident != 'B_verif_VendorBits' else '(5%%N, [%s])' % '; '.join('("%s"%%string, %d%%N)' % kv for kv in cls.bitNames.items())
+    if all(isinstance(x, int) for x in arg):
+        coq = 'canon_res canon_prim (bits_ctor_ints %s [%s])' % (tblx, ';'.join('true' if b else 'false' for b in arg))
+    else:
+        coq = 'canon_res canon_prim (bits_ctor_names %s [%s])' % (tblx, ';'.join('"%s"%%string' % n for n in arg))
+    return Case('ctor-bits', coq, exp, key=('ctor-bits', ident, repr(arg)), desc={'op': 'ctor-bits', 'class': ident, 'arg': repr(arg)[:200]})
+
+
 def wave4_cases(rng, tier):
     """(1) special code points through every charset; (2) BitString subclasses (library + a user subclass) with values shorter and
     longer than bitLen; (3) two ObjectIdentifier classes with different objectTypeClass interleaved in both orders; (4) a slice of
@@ -734,6 +745,9 @@ def wave4_cases(rng, tier):
     synthetic()
     bits['B_verif_VendorBits'] = VendorBits
     for ident, cls in bits.items():
+        names = list(cls.bitNames)
+        for arg in ([], [0], [1] * cls.bitLen, [0] * (cls.bitLen + 1), names[:1], names[-1:], names, rng.sample(names, min(2, len(names)))):
+            out.append(case_ctor_bits(ident, cls, arg))
         lens = sorted(set([0, 1, cls.bitLen - 1, cls.bitLen, cls.bitLen + 1, cls.bitLen + 9, rng.randrange(cls.bitLen + 1)]))
         for n in lens:
             spec = ('bits', [rng.randrange(2) for _ in range(n)], ident)
@@ -1139,6 +1153,58 @@ def expected_after(kind, v):
     return v
 
 
+def intended(kind, cls, arg, tbl):
+    """The value a constructor argument DENOTES, worked out here without the library: (True, value) — or (False, None) for argument
+    forms whose meaning is a parsing convention of the library (date / time strings, numeric strings).  This, not obj.value read
+    back, is the oracle's input: the constructor is part of "value given -> octets -> value"."""
+    if kind == 'null':
+        return True, ()
+    if kind == 'bool':
+        return (True, arg) if isinstance(arg, bool) else (False, None)
+    if kind in ('unsigned', 'integer'):
+        return (True, arg) if isinstance(arg, int) and not isinstance(arg, bool) else (False, None)
+    if kind in ('real', 'double'):
+        return (True, float(arg)) if isinstance(arg, (int, float)) and not isinstance(arg, bool) else (False, None)
+    if kind == 'octets':
+        return (True, bytes(arg)) if isinstance(arg, (bytes, bytearray)) else (False, None)
+    if kind == 'chars':
+        return (True, arg) if isinstance(arg, str) else (False, None)
+    if kind == 'bits':
+        if not isinstance(arg, list):
+            return False, None
+        if all(isinstance(b, int) and b in (0, 1) for b in arg):       # includes the empty list: a bit string of length 0
+            return True, [int(b) for b in arg]
+        if all(isinstance(b, str) and b in cls.bitNames for b in arg):
+            out = [0] * cls.bitLen
+            for b in arg:
+                out[cls.bitNames[b]] = 1
+            return True, out
+        return False, None
+    if kind == 'enum':
+        inv = {v: k for k, v in (tbl or {}).items()}
+        if isinstance(arg, str):
+            return True, arg
+        if isinstance(arg, int) and not isinstance(arg, bool):
+            return True, inv.get(arg, arg)                              # a known number is shown by its name
+        return False, None
+    if kind in ('date', 'time'):
+        return (True, tuple(arg)) if isinstance(arg, tuple) else (False, None)
+    if kind == 'objid':
+        inv = {v: k for k, v in (tbl or {}).items()}
+        if isinstance(arg, tuple) and len(arg) == 2:
+            t, i = arg
+        elif isinstance(arg, int) and not isinstance(arg, bool):
+            t, i = (arg >> 22) & 0x3FF, arg & 0x3FFFFF
+        elif isinstance(arg, str) and arg.count(':') == 1:
+            t, i = arg.split(':')
+            t = int(t) if t.isdigit() else t
+            i = int(i)
+        else:
+            return False, None
+        return True, (inv.get(t, t) if isinstance(t, int) else t, i)
+    return False, None
+
+
 def check_value(cls, kind, arg, ctxs, tbl=None, require_accept=True):
     """The property's predicate for one constructor argument of one class.  Returns a failure dict or None,
     and a flag telling whether the value was encoded (non-trivially)."""
@@ -1150,6 +1216,12 @@ def check_value(cls, kind, arg, ctxs, tbl=None, require_accept=True):
     except Exception as e:
         return None, False                      # refused at construction: not a value of the type
     v = obj.value
+    known, iv = intended(kind, cls, arg, tbl)
+    if known:
+        # the object must hold what was handed in, and everything below is judged against what was handed in
+        if not same_value(kind, v, iv):
+            return dict(info, kind='constructor-alters-value', given=repr(iv)[:120], holds=repr(v)[:120]), False
+        v = iv
     want_val = expected_after(kind, v)
     for ctx in [None] + list(ctxs):
         mode = 'app' if ctx is None else 'ctx%d' % ctx
@@ -1671,6 +1743,20 @@ def history_direct(rng, cls, kind, tbl, nsteps, script=None):
                     str(obj)
         except Exception as e:
             return dict(info, kind='history-step-raises', step=len(done) - 1, exc=repr(e)[:160], history=[replay_step(x) for x in done]), done, n
+        given = None
+        if st[0] == 'new':
+            given = intended(kind, cls, st[1], tbl)
+        elif st[0] == 'decode' and kind != 'null':
+            given = intended(kind, cls, st[1], tbl)
+            if given[0]:
+                given = (True, expected_after(kind, given[1]))          # a Real carries binary32 precision
+        elif st[0] == 'set_tuple':
+            given = intended(kind, cls, (st[1], st[2]), tbl)
+        elif st[0] == 'set_long':
+            given = intended(kind, cls, st[1], tbl)
+        if given is not None and given[0] and given[1] is not None and not same_value(kind, obj.value, given[1]):
+            return dict(info, kind='object-holds-other-value-than-given', step=len(done) - 1, given=repr(given[1])[:160],
+                        holds=repr(obj.value)[:160], history=[replay_step(x) for x in done]), done, n
         if expected is not None and obj_state(kind, obj) != expected:
             return dict(info, kind='object-differs-from-fresh', step=len(done) - 1, state=repr(obj_state(kind, obj))[:160],
                         fresh=repr(expected)[:160], history=[replay_step(x) for x in done]), done, n
